@@ -36,7 +36,10 @@ use crate::vm::VMBinding;
 use std::marker::PhantomData;
 use std::sync::atomic::AtomicBool;
 use std::sync::Arc;
+#[cfg(not(mmtk_verif))]
 use std::sync::Mutex;
+#[cfg(mmtk_verif)]
+use crate::util::verif::sync::Mutex;
 
 use downcast_rs::Downcast;
 
